@@ -57,7 +57,8 @@ PROPS = {
 
 PROBES = {'C06': ['readd_removed_other_stride', 'append_differing_props', 'extract_into_nonempty',
                   'op_on_empty_array', 'nonlocal_tags_at_align', 'pickle_strided', 'set_tag_called',
-                  'clear_then_reuse', 'append_update_constants', 'remove_all', 'extract_duplicate_indices']}
+                  'clear_then_reuse', 'append_update_constants', 'remove_all', 'extract_duplicate_indices',
+                  'add_property_fills_empty_array', 'fill_empty_array_with_strided_props_declared']}
 
 
 def prepare(prop, tier):
@@ -110,7 +111,7 @@ def gen_array(t, idc):
     tags = [t.wchoice([(0, 6), (1, 2), (2, 2)]) for _ in range(n)] if t.bool(0.6) else None
     consts = [[c, [t.int(-3, 9) for _ in range(t.int(1, 4))]] for c in CONST_NAMES if t.bool(0.3)]
     how = t.wchoice([('ctor', 5), ('utils', 2), ('add_property', 2)])
-    return dict(n=n, props=props, tags=tags, consts=consts, how=how,
+    return dict(n=n, props=props, tags=tags, consts=consts, how=how, order=t.int(0, 12), declare_first=int(t.bool(0.3)),
                 default_tag=t.wchoice([(0, 8), (1, 1), (2, 1)]))
 
 
@@ -250,8 +251,10 @@ def compare(w, ai, opdesc):
     a = sorted(canon(r) for r in rr)
     b = sorted(canon(r) for r in m.recs)
     if a != b:
-        extra = [x for x in a if x not in b][:2]
-        missing = [x for x in b if x not in a][:2]
+        from collections import Counter
+        ca, cb = Counter(a), Counter(b)
+        extra = list((ca - cb).elements())[:2]
+        missing = list((cb - ca).elements())[:2]
         w.violate('records-differ', 'array %d after %s: records only in the real array %r; only in the model %r'
                   % (ai, opdesc, extra, missing), **sig)
         return
@@ -362,9 +365,15 @@ def build_array(w, spec, ai):
         m.aligned = True
     else:
         pa = ParticleArray(name=m.name, default_particle_tag=dtag)
-        order = [p for p in m.props if p not in ('pid',)]
-        # tag first so that the particle count is fixed by it
-        order.sort(key=lambda p: (p != 'tag', p))
+        order = sorted(p for p in m.props if p not in ('pid',))
+        # the order in which properties (some strided) are declared is part of the history
+        rot = int(spec.get('order', 0)) % max(1, len(order))
+        order = order[rot:] + order[:rot]
+        if spec.get('declare_first'):
+            # declare everything without data first, then give the data
+            for p in order:
+                ctype, stride, default = m.props[p]
+                pa.add_property(p, type=ctype, default=default, stride=stride)
         for p in order:
             ctype, stride, default = m.props[p]
             if n > 0:
@@ -585,6 +594,25 @@ def apply_op(w, op):
         if old is not None and old != stride:
             w.probe('readd_removed_other_stride')
         with_data = flag and n > 0
+        if flag and n == 0:
+            # data given to an empty array creates the particles
+            cnt = 1 + int(op.get('n', 0)) % 5
+            ids = w.new_ids(cnt)
+            vals = [tuple(cast(ctype, val(i, name, j, salt)) for j in range(stride)) for i in ids]
+            arr = np.asarray([v for tup in vals for v in tup], dtype=NPT[ctype])
+            pa.add_property(name, type=ctype, default=default, data=arr, stride=stride)
+            m.props[name] = (ctype, stride, default)
+            for tup in vals:
+                r = m.default_rec()
+                r[name] = tup
+                m.recs.append(r)
+            m.aligned = False
+            w.probe('add_property_fills_empty_array')
+            if any(st > 1 for p_, (ct, st, df) in m.props.items() if p_ != name):
+                w.probe('fill_empty_array_with_strided_props_declared')
+            desc = 'add_property(%s, type=%s, stride=%d, data for %d particles) on an empty array' % (name, ctype, stride, cnt)
+            w.kinds.append(k)
+            return desc, touched
         if with_data:
             rr = real_records(pa)
             data = []
@@ -887,6 +915,13 @@ def execute(sc, prop):
             pa, m = build_array(w, spec, ai)
         except InvalidScenario:
             raise
+        except Exception as e:
+            import traceback
+            if traceback.extract_tb(e.__traceback__)[-1].filename.endswith('e_pa.py'):
+                raise
+            w.violate('operation-raised', 'construction (%s) raised %r\n%s' % (spec.get('how'), e, traceback.format_exc()[-600:]),
+                      op='construction', exc=type(e).__name__)
+            return dict(violations=w.viol, digest=0, nontrivial=False, faults={}, probes=w.probes, sim=0.0, inconclusive=False)
         w.real.append(pa)
         w.model.append(m)
     for ai in range(len(w.real)):
